@@ -189,6 +189,17 @@ def families(tier, seed):
     return fams
 
 
+def _twin_fixed_eps():
+    def eq(self, other):
+        if isinstance(other, Point):
+            return abs(self.x - other.x) < 1e-10 and abs(self.y - other.y) < 1e-10 and abs(self.z - other.z) < 1e-10
+        return False
+    Point.__eq__ = eq
+
+
+TWINS = {'Point.__eq__ with a hard-wired 1e-10': (r'^close/Point/axis/eps\(5\)/v', _twin_fixed_eps)}
+
+
 META = dict(
     title='tolerance follows set_eps / set_sig_figures',
     level_text=('Bounded symbolic model checking of the real comparison / hash code under configuration histories: sequences of up to three set_eps / '
